@@ -159,6 +159,11 @@ def vcurve(rep: Report, s: Smoother, p: Optional[str]):
             det += f"; loop {best[0].region.label()}; init {vmin}={[d.rhs.key() for d in init_v]} {k}={[d.rhs.key() for d in init_k]}"
     ob("R-ARGMIN", "the running minimum and its index are updated together, over every candidate, starting from the first", okm, det,
        best[0].stmt if best else "arg-min loop")
+    sel_regions = [gl] + ([best[0].region] if best else []) + [vst[0].region]
+    leave = [e for e in sc.exits if e.kind in ("break", "continue", "return") and any(e.region is r_ for r_ in sel_regions)]
+    ob("R-ARGMIN", "no early exit from the grid sweep, the V-curve construction or the arg-min loop", not leave,
+       f"`{norm_stmt(leave[0].stmt)}` under {list(leave[0].guards)[-1:]} skips candidates" if leave else "",
+       leave[0].stmt if leave else f"{fn}: exits of the selection loops")
     if k is None:
         return None
     # --- reported lambda and band
